@@ -22,9 +22,9 @@ EXTENDS Ps3Handlers, Json
 
 Trace == ndJsonDeserialize("trace.ndjson")
 
-VARIABLES l, fs, views, aw, conn
+VARIABLES l, fs, views, aw, conn, tmo
 
-tvars == <<l, fs, views, aw, conn>>
+tvars == <<l, fs, views, aw, conn, tmo>>
 
 SetOf(seq) == { seq[i] : i \in DOMAIN seq }
 ViewsOf(seq) == [ key \in { <<seq[i].vk, seq[i].p>> : i \in DOMAIN seq } |->
@@ -67,7 +67,25 @@ Matches(e, o) ==
     [] OTHER           -> o.k = e.k /\ FieldsMatch(e, o)
 
 (* ------------------------------------------------------------- actions *)
-TraceInit == TLCSet(1, 0) /\ l = 1 /\ fs = {} /\ views = << >> /\ aw = FALSE /\ conn = NoConns
+TraceInit == TLCSet(1, 0) /\ l = 1 /\ fs = {} /\ views = << >> /\ aw = FALSE /\ conn = NoConns /\ tmo = 0
+
+(***************************************************************************)
+(* C16 (in process): the in-memory connection records every SetReadDeadline *)
+(* call (time of the call, deadline; ms).  With a read timeout T configured *)
+(* the loop arms exactly once before waiting for each command - once after  *)
+(* connect, once after every answered request, never for the bytes of an     *)
+(* incomplete request - always to now + T; without one it never arms.  A     *)
+(* silent connection is cut by that deadline: not before T after the last    *)
+(* arming, and soon after.                                                   *)
+(***************************************************************************)
+ArmTol == 15          \* ms between time.Now() inside the server and the recorded call time
+CutSlack == 1500      \* ms the server may take to notice the passed deadline on a loaded machine
+ArmOK(arm) == arm[2] - arm[1] >= tmo - ArmTol /\ arm[2] - arm[1] <= tmo + ArmTol
+ArmsOK(arms, expectArm) ==
+  IF tmo = 0 THEN arms = << >>
+  ELSE IF expectArm THEN Len(arms) = 1 /\ ArmOK(arms[1])
+  ELSE arms = << >>
+CutOK(e) == e.deadlineHit /\ e.cutAfterMs >= tmo - ArmTol /\ e.cutAfterMs <= tmo + CutSlack
 
 TraceWorld ==
   /\ IsEvent("World")
@@ -75,6 +93,7 @@ TraceWorld ==
        /\ fs' = SetOf(e.nodes)
        /\ views' = ViewsOf(e.views)
        /\ aw' = e.aw
+       /\ tmo' = e.timeoutMs
        /\ conn' = NoConns
 
 TraceConnect ==
@@ -82,7 +101,8 @@ TraceConnect ==
   /\ LET c == Trace[l].c IN
        /\ c \notin DOMAIN conn
        /\ conn' = [x \in DOMAIN conn \cup {c} |-> IF x = c THEN [st |-> "serving", cs |-> InitCs] ELSE conn[x]]
-  /\ UNCHANGED <<fs, views, aw>>
+       /\ ArmsOK(Trace[l].arms, TRUE)
+  /\ UNCHANGED <<fs, views, aw, tmo>>
 
 (* a change of the tree stales every listing cursor walking a changed dir  *)
 ChangedDirs(old, new) ==
@@ -98,6 +118,8 @@ TraceReq ==
      IN /\ c \in DOMAIN conn
         /\ conn[c].st = "serving"
         /\ e.hang = FALSE
+        /\ ArmsOK(e.arms, ~e.closed)                 \* armed again iff the loop goes on
+        /\ (e.stalled => CutOK(e))                   \* a request stalled half-way is ended by the deadline armed before it
         /\ \E o \in HandleF(conn[c].cs, fs, e.req, aw, views, e.faults) :
              /\ Matches(o.resp, e.resp)
              /\ o.close = e.closed
@@ -115,7 +137,7 @@ TraceReq ==
                                                           ELSE [st |-> "serving", cs |-> o.cs]],
                                     c, ChangedDirs(fs, o.fs))
   /\ views' = IF Trace[l].mut THEN ViewsOf(Trace[l].views) ELSE views   \* generated images follow the tree
-  /\ aw' = aw
+  /\ aw' = aw /\ tmo' = tmo
 
 TraceClose ==
   /\ IsEvent("Close")
@@ -123,13 +145,15 @@ TraceClose ==
        /\ e.c \in DOMAIN conn
        /\ conn[e.c].st = "serving"
        /\ e.handles = 0
+       /\ e.arms = << >>
+       /\ (e.how = "timeout" => (tmo > 0 /\ e.serverClosed /\ CutOK(e)))
        /\ conn' = [conn EXCEPT ![e.c] = [st |-> "closed", cs |-> InitCs]]
-  /\ UNCHANGED <<fs, views, aw>>
+  /\ UNCHANGED <<fs, views, aw, tmo>>
 
 TraceProbe ==
   /\ IsEvent("Probe")
   /\ Trace[l].ok = TRUE
-  /\ UNCHANGED <<fs, views, aw, conn>>
+  /\ UNCHANGED <<fs, views, aw, conn, tmo>>
 
 (* C01: the sentinel zone around the root is bit-identical after the session, *)
 (* and every real path the stack handed to the operating system lies under    *)
@@ -138,21 +162,21 @@ TraceProbe ==
 TraceSentinel ==
   /\ IsEvent("Sentinel")
   /\ Trace[l].same = TRUE
-  /\ UNCHANGED <<fs, views, aw, conn>>
+  /\ UNCHANGED <<fs, views, aw, conn, tmo>>
 
 UnderRoot(rootName, p) == Len(p) >= 1 /\ p[1] = rootName /\ \A i \in DOMAIN p : p[i] # DotDot
 TraceRealPaths ==
   /\ IsEvent("RealPaths")
   /\ LET e == Trace[l] IN \A i \in DOMAIN e.paths : UnderRoot(e.rootName, e.paths[i])
-  /\ UNCHANGED <<fs, views, aw, conn>>
+  /\ UNCHANGED <<fs, views, aw, conn, tmo>>
 
 (* C13: once every connection of the world has ended nothing is left behind *)
 TraceQuiesce ==
   /\ IsEvent("Quiesce")
   /\ Trace[l].gor = 0 /\ Trace[l].open = 0
-  /\ UNCHANGED <<fs, views, aw, conn>>
+  /\ UNCHANGED <<fs, views, aw, conn, tmo>>
 
-TraceFsOps == IsEvent("FsOps") /\ UNCHANGED <<fs, views, aw, conn>>    \* informational: the operations of a clean run
+TraceFsOps == IsEvent("FsOps") /\ UNCHANGED <<fs, views, aw, conn, tmo>>    \* informational: the operations of a clean run
 
 TraceNext == TraceQuiesce \/ TraceFsOps \/ TraceWorld \/ TraceConnect \/ TraceReq \/ TraceClose \/ TraceProbe \/ TraceSentinel \/ TraceRealPaths
 
